@@ -6,7 +6,7 @@ from __future__ import annotations
 import z3
 
 from . import values as V
-from .smt import fresh_int, iv
+from .smt import fresh_int, fresh_arr, iv
 from .values import NONE, VBool, VConst, VExc, VInt, VList, VNone, VObj, VStr, VTuple, Unsupported, lit
 
 
@@ -222,3 +222,105 @@ def install(ex, mod):
     add("PyUnicode_READ", p_read)
     add("PyUnicode_DecodeASCII", p_decode_ascii)
     ex.c_semantics = True
+    install_memory(ex, mod)
+    buffer_blk = VObj("Block", {"mem": VConst(fresh_arr("BUFFER")),
+                                "size": VInt(mod.__dict__["BUF_SIZE"]), "static": VBool(True), "is_BUFFER": True}, fresh=False)
+    reg[id(mod.__dict__["BUFFER"])] = buffer_blk
+
+
+# ---------------------------------------------------------------- memory model for the Writer (C19)
+
+def new_block(ctx, size_term, static=False, name="blk"):
+    from .smt import fresh_arr
+    return VObj("Block", {"mem": VConst(fresh_arr(name)), "size": VInt(size_term), "static": VBool(static)}, fresh=True)
+
+
+def p_malloc(ex, st, args, kwargs, node):
+    """PyMem_Malloc(n): NULL, or a fresh block of n bytes (one more live heap block)"""
+    n = args[0]
+    other = st.fork()
+    ex.sol.push()
+    try:
+        st.ghost["live"] = VInt(st.ghost.get("live", VInt(0)).t + 1)
+        yield new_block(st.ctx, n.t), st
+    finally:
+        ex.sol.pop()
+    ex.sol.push()
+    try:
+        yield NONE, other
+    finally:
+        ex.sol.pop()
+
+
+def p_realloc(ex, st, args, kwargs, node):
+    """PyMem_Realloc(p, n): NULL (p untouched and still owned), or a fresh block of n bytes whose
+    first min(old, n) bytes are p's; p is gone"""
+    p, n = args
+    if not (isinstance(p, VObj) and p.cls == "Block"):
+        raise Unsupported("realloc of non-block")
+    ex.oblige(st, "realloc-of-a-live-heap-block", "safety", z3.Not(p.fields["static"].t), node, {"exception": "invalid realloc"})
+    other = st.fork()
+    ex.sol.push()
+    try:
+        nb = new_block(st.ctx, n.t)
+        old, new = p.fields["mem"].obj, nb.fields["mem"].obj
+        osz = p.fields["size"].t
+        st.ctx.addq("realloc-copy", new, lambda k: z3.Implies(z3.And(0 <= k, k < osz, k < n.t), new[k] == old[k]))
+        yield nb, st
+    finally:
+        ex.sol.pop()
+    ex.sol.push()
+    try:
+        yield NONE, other
+    finally:
+        ex.sol.pop()
+
+
+def p_free(ex, st, args, kwargs, node):
+    p = args[0]
+    if not (isinstance(p, VObj) and p.cls == "Block"):
+        raise Unsupported("free of non-block")
+    ex.oblige(st, "free-of-a-live-heap-block(not-the-static-BUFFER)", "safety", z3.Not(p.fields["static"].t), node,
+              {"exception": "invalid free"})
+    st.ghost["live"] = VInt(st.ghost.get("live", VInt(0)).t - 1)
+    yield NONE, st
+
+
+def p_memcpy(ex, st, args, kwargs, node):
+    dst, src, n = args
+    ex.oblige(st, "memcpy-within-both-blocks", "safety",
+              z3.And(n.t >= 0, n.t <= dst.fields["size"].t, n.t <= src.fields["size"].t), node, {"exception": "buffer overflow"})
+    from .smt import fresh_arr
+    new = fresh_arr("cpy")
+    old_dst, s = dst.fields["mem"].obj, src.fields["mem"].obj
+    st.ctx.addq("memcpy", new, lambda k: z3.Implies(z3.And(0 <= k, k < n.t), new[k] == s[k]))
+    st.ctx.addq("memcpy-rest", new, lambda k: z3.Implies(k >= n.t, new[k] == old_dst[k]))
+    dst.fields["mem"] = VConst(new)
+    yield NONE, st
+
+
+def p_nomemory(ex, st, args, kwargs, node):
+    st.pending_exc = MemoryError
+    yield NONE, st
+
+
+def block_store(ex, st, blk, idx, val, node):
+    """blk[idx] = val : in-bounds obligation + functional update of the block's content"""
+    from .smt import fresh_arr
+    ex.oblige(st, "write-within-the-buffer", "safety", z3.And(idx.t >= 0, idx.t < blk.fields["size"].t), node,
+              {"exception": "buffer overflow"})
+    old = blk.fields["mem"].obj
+    new = fresh_arr("st")
+    c = _code(ex, val)
+    st.ctx.add(new[idx.t] == c)
+    st.ctx.addq("store-frame", new, lambda k: z3.Implies(k != idx.t, new[k] == old[k]))
+    st.ctx.bound(idx.t)
+    blk.fields["mem"] = VConst(new)
+
+
+def install_memory(ex, mod):
+    from .engine import Prim
+    reg = ex.native_by_id
+    for name, fn in (("PyMem_Malloc", p_malloc), ("PyMem_Realloc", p_realloc), ("PyMem_Free", p_free),
+                     ("memcpy", p_memcpy), ("PyErr_NoMemory", p_nomemory)):
+        reg[id(mod.__dict__[name])] = Prim("c." + name, fn)
